@@ -56,7 +56,7 @@ def occurrence_table(r=None):
     comps = []
     for pos in ("seq", "nested", "choice", "seqopt", "seqrep"):
         for mn in (0, 1):
-            for mx in (1, 3, "unbounded"):
+            for mx in (1, 3, 10**25, "unbounded"):
                 leaves = []
                 for t in targets:
                     nm = N("mem", t.name.lower().replace(".", "").replace("64", "sixfour"))
@@ -72,7 +72,7 @@ def occurrence_table(r=None):
                     g = Group("sequence", 0, 1, leaves)
                 else:
                     g = Group("sequence", 1, "unbounded", leaves)
-                comps.append(ComplexType(N("tab", pos, "min" + ("zero" if mn == 0 else "one"), "max" + {1: "one", 3: "three", "unbounded": "many"}[mx]),
+                comps.append(ComplexType(N("tab", pos, "min" + ("zero" if mn == 0 else "one"), "max" + {1: "one", 3: "three", 10**25: "huge", "unbounded": "many"}[mx]),
                                          Content(g, []), file=0))
     attrs = []
     for t in targets[:-1]:
@@ -102,7 +102,9 @@ def order_family(perm, default_ns=False, two_files=False):
                                               [Attr(N("rev"), TypeRef("int"), False)]), file=idx)
         node_el = GlobalElement(N("node"), type=own(node), file=idx)
         derived = ComplexType(N("derived"), Content(Group("sequence", 1, 1, [LocalElement(N("own"), TypeRef("int"))]),
-                                                    [Attr(N("flag"), TypeRef("boolean"), False)]), base=own(node), file=idx)
+                                                    # the second attribute is called like an element the type inherits
+                                                    [Attr(N("flag"), TypeRef("boolean"), False), Attr(N("inh"), TypeRef("string"), False)]),
+                              base=own(node), file=idx)
         # second step of the chain: adds an attribute only, with no sequence inside the extension
         leaf = ComplexType(N("leaf"), Content(None, [Attr(N("leafy"), TypeRef("string"), False)]), base=own(derived), file=idx)
         user = ComplexType(N("user"), Content(Group("sequence", 1, 1, [ElementRef(own(node_el)), LocalElement(N("n"), own(node), 0, 3),
@@ -216,6 +218,76 @@ def order_family_programs(r, n):
         tf = [False, True, "mutual", False][(k >> 1) & 3]
         out.append(("order:" + "".join(map(str, perm)) + ("+default-ns" if dn else "") + ("+twin" if tf is True else ("+mutual-twin" if tf else "")),
                     order_family(perm, dn, tf)))
+    return out
+
+
+def split_namespace_family():
+    """One namespace spread over two files that the start file imports with another namespace's file in between (and, second
+    member, one after the other): common-a, payment, common-b. Everything of both files belongs into the one module of the
+    namespace, whatever was read in between."""
+    out = []
+    for label, order in (("apart", [1, 2, 3]), ("adjacent", [1, 3, 2]), ("apart-second-first", [3, 2, 1])):
+        f0 = _file(0, "http://zv.test/split/orders", {0: "ord", 1: "com", 2: "pay", 3: "com"}, order)
+        f1 = _file(1, "http://zv.test/split/common", {1: "com"})
+        f2 = _file(2, "http://zv.test/split/payment", {2: "pay", 1: "com"}, [1])
+        f3 = _file(3, "http://zv.test/split/common", {3: "com"})
+        base = ComplexType(N("base", "record"), Content(Group("sequence", 1, 1, [LocalElement(N("id"), TypeRef("long"))]),
+                                                        [Attr(N("rev"), TypeRef("int"), False)]), file=1)
+        code = SimpleType(N("code"), TypeRef("string"), Facets(max_length=6), None, 1)
+        f1.components = [base, code]
+        card = ComplexType(N("card"), Content(Group("sequence", 1, 1, [LocalElement(N("holder"), TypeRef("string")),
+                                                                       LocalElement(N("kind"), TypeRef(code.name.xml, 1, code), 0, 1)]), []),
+                           base=TypeRef(base.name.xml, 1, base), file=2)
+        f2.components = [card]
+        address = ComplexType(N("address"), Content(Group("sequence", 1, 1, [LocalElement(N("street"), TypeRef("string")),
+                                                                             LocalElement(N("zip"), TypeRef("string"), 0, 1)]), []), file=3)
+        place = GlobalElement(N("place"), type=TypeRef(address.name.xml, 3, address), file=3)
+        f3.components = [address, place]
+        order_t = ComplexType(N("order"), Content(Group("sequence", 1, 1, [
+            LocalElement(N("ship", "to"), TypeRef(address.name.xml, 3, address)),
+            LocalElement(N("paid", "by"), TypeRef(card.name.xml, 2, card), 0, 1),
+            LocalElement(N("head"), TypeRef(base.name.xml, 1, base), 0, 1),
+            ElementRef(TypeRef(place.name.xml, 3, place), 0, 3)]), []), file=0)
+        f0.components = [order_t, GlobalElement(N("order", "entry"), type=TypeRef(order_t.name.xml, 0, order_t), file=0)]
+        out.append((f"split-namespace:{label}", SchemaSet([f0, f1, f2, f3], "f0.xsd", None,
+                                                          {"one-namespace-in-two-files", "member-type-foreign", "extension", "extension-foreign", "element-ref-foreign"})))
+    return out
+
+
+def inner_xmlns_family():
+    """A global element whose anonymous complexType declares (or binds anew) the prefix of a member's type on its own start tag —
+    not on the element, not on the schema. Both namespaces have a type `Item`, so a prefix that is not honoured still finds
+    *an* Item: the wrong one."""
+    out = []
+    for label, rebind in (("declared-on-the-inner-complex-type", False), ("bound-anew-on-the-inner-complex-type", True)):
+        f0 = _file(0, "http://zv.test/inner/orders", {0: "ord", 1: "cat", 2: "oth"}, [1, 2])
+        f1 = _file(1, "http://zv.test/inner/catalog", {1: "cat"})
+        f2 = _file(2, "http://zv.test/inner/other", {2: "oth"})
+        own_item = ComplexType(N("item"), Content(Group("sequence", 1, 1, [LocalElement(N("line"), TypeRef("int"))]), []), file=0)
+        cat_item = ComplexType(N("item"), Content(Group("sequence", 1, 1, [LocalElement(N("sku"), TypeRef("string"))]),
+                                                  [Attr(N("stock"), TypeRef("int"), False)]), file=1)
+        oth_item = ComplexType(N("item"), Content(Group("sequence", 1, 1, [LocalElement(N("misc"), TypeRef("boolean"))]), []), file=2)
+        f1.components = [cat_item]
+        f2.components = [oth_item]
+        order = GlobalElement(N("order"), content=Content(Group("sequence", 1, 1, [
+            LocalElement(N("from", "catalog"), TypeRef(cat_item.name.xml, 1, cat_item)),
+            LocalElement(N("own", "line"), TypeRef(own_item.name.xml, 0, own_item), 0, 3)]), []), file=0)
+        order.xmlns_inner = True
+        # the same for the base of an anonymous type: <element name="Special"><complexType xmlns:cat=…><complexContent><extension base="cat:Item">
+        special = GlobalElement(N("special"), content=Content(Group("sequence", 1, 1, [LocalElement(N("note"), TypeRef("string"), 0, 1)]), []),
+                                base=TypeRef(cat_item.name.xml, 1, cat_item), file=0)
+        special.xmlns_inner = True
+        if rebind:
+            special.prefix_override = {"bind": 1, "as": "oth", "hides": 2}
+        if rebind:
+            # the schema binds `oth` to the third namespace; the inner complexType of `order` binds it to the catalog
+            order.prefix_override = {"bind": 1, "as": "oth", "hides": 2}
+            user = ComplexType(N("keeps", "outer"), Content(Group("sequence", 1, 1, [LocalElement(N("misc", "item"), TypeRef(oth_item.name.xml, 2, oth_item))]), []), file=0)
+            f0.components = [own_item, order, special, user]
+        else:
+            f0.nested_xmlns = True
+            f0.components = [own_item, order, special]
+        out.append((f"inner-xmlns:{label}", SchemaSet([f0, f1, f2], "f0.xsd", None, {"xmlns-on-inner-complex-type", "member-type-foreign", "nested-xmlns"})))
     return out
 
 
